@@ -12,7 +12,10 @@ HARNESS = dict(name="hashtable", flavour="asan")
 # (results, contents, counts, destructor multisets, visit-exactly-once) and alone decides what is a concrete violation
 P_DIFF_CONCRETE = False
 TIMEOUT = 900
-TRUSTED = ["hand model lean/AwsVerif/Model/Lookup3.lean (byte-wise hashlittle2; tied by the W stream `hl2` at all four alignments)",
+TRUSTED = ["hand model lean/AwsVerif/Model/Lookup3.lean (byte-wise hashlittle2 + interpreter of the extracted path tables; tied by the "
+           "W streams `hl2` / `hl2s` at all four alignments with varying bytes behind the key)",
+           "props/c02_gen.py lookup3_paths(): extraction of the three hashlittle2 paths (non-VALGRIND branch) into term tables; any "
+           "statement outside the modelled shape is a GenError",
            "hand model lean/AwsVerif/Model/HashTable.lean (tied to source/hash_table.c by this correspondence run only: "
            "P lines = results/contents/destructor multisets, W lines = full slot dump through private/hash_table_impl.h)",
            "props/c02_gen.py: s_tolower_table, FNV constants, the max_load_factor literal and the lookup3 rotation amounts / basis / "
@@ -25,10 +28,7 @@ RULE = ("op programs over 1-2 tables, 3-64 key identities x 2 pointers, adversar
         "at size-1, same home different high bits, random), initial sizes {0,1,2,3,8,64}, destructor sets {kv,k,v,-}; "
         "non-trivial = >=1 overwrite-or-remove and (>=1 growth or >=1 iterator/foreach deletion); distinct by op-file hash; "
         "plus exhaustive put/remove/iterate programs on a 4-slot table")
-NOT_PROVED = ["that the 32-bit-load and 16-bit-load paths of hashlittle2 (chosen by the alignment of the key pointer) compute the "
-              "byte-wise function the model defines: checked by the W stream `hl2` at all four alignments (lengths 0..40, boundary "
-              "fills, random up to 300 bytes) and by the in-harness consistency monitor, not proved (design: tie, not proof)",
-              "aws_hash_ptr / aws_hash_combine are modelled and compared (W) but carry no theorem (there is no equality notion to be "
+NOT_PROVED = ["aws_hash_ptr / aws_hash_combine are modelled and compared (W) but carry no theorem (there is no equality notion to be "
               "consistent with beyond pointer identity)"]
 
 M64 = (1 << 64) - 1
@@ -204,7 +204,20 @@ def gen_lookup3_cases(rng, nrandom):
         ops.append("hl2 " + ("00" * n))
         ops.append("hl2 " + bytes((i * 37 + 1) % 256 for i in range(n)).hex())
     out.append(Case(ops, {"kind": "lookup3"}))
+    # the key as a sub-view of a larger buffer: every length 0..40 (every residue mod 12, one to three blocks), the bytes
+    # behind the key with non-zero low / high nibbles (a mask that keeps 4 bits too many or too few is visible)
     ops = []
+    followers = ["01", "10", "0f", "f0", "ff", "80", "08", "a5"]
+    for n in range(41):
+        key = bytes(rng.randrange(1, 256) for _ in range(n)).hex() or "-"
+        for _ in range(2):
+            ops.append(f"hl2s {key} " + "".join(rng.choice(followers) for _ in range(rng.choice([1, 3, 4]))))
+    out.append(Case(ops, {"kind": "lookup3"}))
+    ops = []
+    for _ in range(nrandom // 3):
+        n = rng.choice([rng.randrange(0, 41), rng.randrange(41, 200)])
+        ops.append("hl2s " + (bytes(rng.randrange(256) for _ in range(n)).hex() or "-") + " " +
+                   bytes(rng.randrange(256) for _ in range(rng.randrange(1, 8))).hex())
     for _ in range(nrandom):
         n = rng.choice([rng.randrange(0, 41), rng.randrange(0, 41), rng.randrange(41, 300)])
         b = bytearray(rng.randrange(256) for _ in range(n))
@@ -345,6 +358,12 @@ def oracle(case, lines):
             continue
         if o in ("hashic", "hptr", "hcomb"):
             continue    # W only
+        if o == "hl2s":
+            l = take()
+            if l != "P hl2s consistent=1":
+                errs.append(f"{op}: equal keys hash differently depending on the bytes that follow them in memory / on their "
+                            f"alignment: `{l}`")
+            continue
         if o == "hl2":
             l = take()
             if l != "P hl2 consistent=1":
@@ -629,8 +648,10 @@ MANIFEST = dict(
           "s_safe_eq_check(value_eq); swap / move are state exchanges without destructor calls; "
           "aws_array_eq_ignore_case a b -> equal aws_hash_array_ignore_case over the s_tolower_table regenerated from byte_buf.c "
           "(all 256 entries by decide); the lookup3 content hashes (byte-wise hashlittle2 with constants generated from "
-          "lookup3.inl, reproducing lookup3's published self-test values) are functions of the bytes only. [not proved] that "
-          "hashlittle2's word-load paths agree with the byte-wise definition - W stream at all four alignments. Tie to /repo: "
+          "lookup3.inl, reproducing lookup3's published self-test values) are functions of the bytes only, and the 32-bit-load "
+          "and 16-bit-load paths of hashlittle2 (block adds, tail switch with its masks and shifts extracted from lookup3.inl "
+          "into term tables on every run) compute that byte-wise function for every key, every address and every content of "
+          "the memory behind the key. Tie to /repo: "
           "correspondence run of the compiled model against hash_table.c rebuilt from the working tree (ASan/UBSan): results, "
           "sorted contents, destructor multisets (P), full slot dump through private/hash_table_impl.h and iterator slot/limit "
           "(W), an in-harness monitor of the invariant on the C slots, a content-hash consistency monitor, and a Python "
